@@ -408,7 +408,7 @@ class Quantity {
     // max prefers `b`, and they never return the same input (although this matters less when we're
     // returning by value).
     friend constexpr Quantity min(Quantity a, Quantity b) { return b < a ? b : a; }
-    friend constexpr Quantity max(Quantity a, Quantity b) { return b < a ? a : b; }
+    friend constexpr Quantity max(Quantity a, Quantity b) { return a < b ? b : a; }
     friend constexpr Quantity clamp(Quantity v, Quantity lo, Quantity hi) {
         return (v < lo) ? lo : ((hi < v) ? hi : v);
     }
